@@ -583,6 +583,27 @@ func init() {
 			}
 		}
 		ids := x.m.mboxIDs()
+		if n > 40 {
+			// long list: unknown ids, with the known ones sitting at the chunk boundaries
+			list := make([]string, n)
+			for k := range list {
+				list[k] = fmt.Sprintf("unknown-%d", k)
+			}
+			var spots []int
+			for _, c := range []int{0, 500, 1000, 2000, n} {
+				for d := -1; d <= 1; d++ {
+					if p := c + d; p >= 0 && p < n {
+						spots = append(spots, p)
+					}
+				}
+			}
+			for j, id := range ids {
+				list[spots[(a.Arg(1)+j*(1+a.Arg(2)%5))%len(spots)]] = x.m.Mboxes[id].RemoteID
+			}
+			for _, r := range list {
+				addR(r)
+			}
+		}
 		for k := 0; len(rids) < n; k++ {
 			switch {
 			case k%3 == 0 && k/3 < len(ids):
@@ -972,8 +993,9 @@ func init() {
 		if b == nil {
 			n = max(n, 1)
 		}
-		pred := x.msgPred([]int{c8Member, c8Existing, c8Any}[a.Arg(3)%3])
-		if b != nil && a.Arg(3)%3 == 0 {
+		// mostly members of this mailbox (Arg(3)%4 < 2), else any message, else any id
+		pred := x.msgPred([]int{c8Member, c8Member, c8Existing, c8Any}[a.Arg(3)%4])
+		if b != nil && a.Arg(3)%4 < 2 {
 			pred = func(m c8ID) bool { _, in := b.In[m]; return in }
 		}
 		ids := x.msgList(n, a.Arg(2), pred)
@@ -1023,8 +1045,9 @@ func init() {
 		if b == nil {
 			n = max(n, 1)
 		}
-		pred := x.msgPred([]int{c8Member, c8Existing, c8Any}[a.Arg(3)%3])
-		if b != nil && a.Arg(3)%3 == 0 {
+		// mostly members of this mailbox (Arg(3)%4 < 2), else any message, else any id
+		pred := x.msgPred([]int{c8Member, c8Member, c8Existing, c8Any}[a.Arg(3)%4])
+		if b != nil && a.Arg(3)%4 < 2 {
 			pred = func(m c8ID) bool { _, in := b.In[m]; return in }
 		}
 		ids := x.msgList(n, a.Arg(2), pred)
